@@ -1,6 +1,7 @@
 import Qx.Driver.Proto
 import Qx.Xml.Tree
 import Qx.Xml.Codec.Scalar
+import Qx.Crypto.Base64
 /-! Driver ops with prefix `scalar-` of the C01/C02 driver: the typed scalar helpers (tier B).
 Fields are separated by single spaces (the framework cuts a harness line at its first TAB, so an op
 cannot contain one) or, equivalently, by TABs; strings are hex-encoded UTF-8, `-` for the empty string. -/
@@ -53,12 +54,20 @@ def step (line : String) : Option String :=
     else if b = "0" then some (hexOfStr (boolToStr false))
     else bad
   | ["scalar-b64dec", h] =>
+    -- cross-check with the shared byte-level model (Qx.Crypto.Base64, on the UTF-8 bytes of the text)
     match strOfHex h with
-    | some s => some (match b64decodeCode s with | none => "none" | some bs => hexOfBytes bs)
+    | some s =>
+      let viaBytes := Qx.Crypto.Base64.decodeLenient (String.ofList s).toUTF8.toList
+      some (match b64decodeCode s with
+            | none => "none"
+            | some bs => if bs = viaBytes then hexOfBytes bs else "models-disagree:Qx.Crypto.Base64.decodeLenient")
     | none => bad
   | ["scalar-b64enc", h] =>
     match bytesOfHex h with
-    | some bs => some (hexOfStr (b64encode bs))
+    | some bs =>
+      let e := b64encode bs
+      if (Qx.Crypto.Base64.encode bs).map (fun u => Char.ofNat u.toNat) = e ∧ Qx.Crypto.Base64.decode? (Qx.Crypto.Base64.encode bs) = b64decodeSpec e
+      then some (hexOfStr e) else some "models-disagree:Qx.Crypto.Base64.encode"
     | none => bad
   | ["scalar-dtparse", h] =>
     match strOfHex h with
